@@ -465,15 +465,6 @@ theorem inGenerations_years {gt : ℚ} (hgt : gt ≠ 0) (g : Graph InEpoch) : (g
     obtain ⟨so, d, pr, tm⟩ := p
     simp [GPulse.tmap, mul_div_cancel_left₀ _ hgt]
 
-theorem convert_years {gt : ℚ} (hgt : gt ≠ 0) (g : Graph InEpoch) (times : List ℚ) :
-    convertToGenerations false gt (g.tmap (fun y => gt * y)) (times.map fun x => gt * x) = (g, times) := by
-  unfold convertToGenerations
-  simp only [Bool.false_eq_true, if_false, inGenerations_years hgt, List.map_map, Prod.mk.injEq, true_and]
-  conv_rhs => rw [← List.map_id times]
-  apply List.map_congr_left
-  intro x _
-  simp [mul_div_cancel_left₀ _ hgt]
-
 /-! ### the order of the sampled demes -/
 
 theorem demoEvents_congr (g : Graph InEpoch) (lib : List (ℚ × DEvt)) (s s' : List DName) (h : ∀ x, s'.contains x = s.contains x) :
